@@ -2041,9 +2041,9 @@ func (r *Resolvable) walkString(s *String, value *astjson.Value) bool {
 			content := value.GetStringBytes()
 			content = bytes.ReplaceAll(content, []byte(`\"`), []byte(`"`))
 			if !gjson.ValidBytes(content) {
-				r.printBytes(quote)
-				r.printBytes(content)
-				r.printBytes(quote)
+				// not JSON: render the string value itself, properly escaped
+				// (the unescaped content may contain quotes or control characters)
+				r.renderScalarFieldValue(value, s.Nullable)
 			} else {
 				r.renderScalarFieldBytes(content, s.Nullable)
 			}
